@@ -15,7 +15,10 @@ Case families
   version_gate_sweep exhaustive: every version spelling (none, 5, 5.0 .. 5.8, 5.40, 5.50, 5.60, 5.80) x every version-dependent statement
                      of reader or writer (NAMESCASESENSITIVE, NOWIREEXTENSIONATPIN, MACRO SOURCE) and a set of later-version statements
                      x the statement before / after VERSION x END LIBRARY present or not
-  mutated            single-token faults (delete, duplicate, swap, replace) of the above that the reader still accepts"""
+  mutated            single-token faults (delete, duplicate, swap, replace) of the above that the reader still accepts
+  c04_dir_*          renderings of the directed families of C04 (props/c04.py directed_cases)
+Every accepted library is written twice: `to_string`, and `save` over an existing longer file (what the lefrw binary does); the
+saved bytes must be the to_string text (else the saved file is read back and judged)."""
 import json, re
 from vlib import *
 from props.lefcommon import *
@@ -80,6 +83,28 @@ DIRECTED = [
     "MACRO m PIN a PROPERTY p 1e3 ; END a END m", "MACRO m PROPERTY p inf ; END m", "MACRO m PROPERTY p ; END m", "MACRO m PROPERTY ; END m",
     "MACRO M END M MACRO M END M", "MACRO END END END",
     "VERSION 5.4 ; NAMESCASESENSITIVE ON ; MACRO m END m END LIBRARY MACRO n",
+    # generator audit 2026-10-02: statements the reader accepts in an order / number the writer does not use (the later one wins,
+    # or both are kept); WIDTH and VIA between geometries; quoted text with newlines; BEGINEXT text with comments and keywords
+    'MACRO m PIN a PROPERTY p v q "two words" r -1.50 ; PROPERTY s t ; END a END m', 'MACRO m PIN a PROPERTY p v ; PROPERTY q w ; PROPERTY r x y z ; END a END m',
+    "MACRO m OBS LAYER a ; RECT 0 0 1 1 ; END OBS LAYER b ; END END m", "MACRO m DENSITY LAYER a ; RECT 0 0 1 1 5 ; END DENSITY LAYER b ; END END m",
+    "MACRO m SIZE 1 BY 2 ; SIZE 3.0 BY 4.00 ; ORIGIN 1 1 ; ORIGIN -0.50 0 ; SYMMETRY X ; SYMMETRY R90 Y ; SITE a ; SITE b ; EEQ e ; EEQ f ; END m",
+    "MACRO m OBS LAYER l ; RECT 0 0 1 1 ; WIDTH 2 ; VIA 0 0 v ; PATH 0 0 1 1 ; WIDTH 3.0 ; VIA 1 1 w ; POLYGON 0 0 1 0 1 1 0 0 ; END END m",
+    "MACRO m OBS LAYER l SPACING 1 DESIGNRULEWIDTH 2 ; LAYER l DESIGNRULEWIDTH 2 SPACING 1 EXCEPTPGNET EXCEPTPGNET ; LAYER l ; END END m",
+    "MACRO m PIN a PORT LAYER l ; RECT 0 0 1 1 ; LAYER l ; RECT 0 0 1 1 ; END PORT END PORT CLASS NONE ; LAYER l ; END END a END m",
+    "MACRO m PIN a USE SIGNAL ; USE POWER ; SHAPE RING ; SHAPE ABUTMENT ; ANTENNAMODEL OXIDE1 ; ANTENNAGATEAREA 1 ; ANTENNAMODEL OXIDE2 ; ANTENNAGATEAREA 2 ; END a END m",
+    'MACRO m PIN a NETEXPR "line1\nline2 # ; " ; TAPERRULE t ; TAPERRULE u ; MUSTJOIN a ; END a END m', "MACRO m PIN a ANTENNAGATEAREA 1 LAYER LAYER ; END a END m",
+    "UNITS DATABASE MICRONS 100 ; END UNITS UNITS TIME NANOSECONDS 2 ; END UNITS", "UNITS DATABASE MICRONS 100 ; DATABASE MICRONS 20000 ; TIME NANOSECONDS 1 ; TIME NANOSECONDS 2.50 ; END UNITS",
+    "VIA v RESISTANCE 2 ; END v", "VIA v DEFAULT END v", "VIA DEFAULT DEFAULT END DEFAULT", "VIA DEFAULT END DEFAULT", "VIA v LAYER l ; LAYER l ; RECT MASK 1 0 0 1 1 ; END v VIA v END v",
+    "VIA v VIARULE r ; CUTSIZE 1 1 ; CUTSIZE 2 2 ; LAYERS a b c ; CUTSPACING 1 1 ; ENCLOSURE 1 2 3 4 ; ROWCOL 1 1 ; ROWCOL 2 2 ; END v",
+    "SITE s CLASS CORE ; CLASS PAD ; SIZE 1 BY 1 ; SIZE 2 BY 2 ; SYMMETRY ; END s SITE s CLASS CORE ; SIZE 1 BY 1 ; END s",
+    "MANUFACTURINGGRID 1 ; MANUFACTURINGGRID 0.0050 ; FIXEDMASK ; FIXEDMASK ; USEMINSPACING OBS ON ; USEMINSPACING OBS OFF ; CLEARANCEMEASURE MAXXY ; CLEARANCEMEASURE EUCLIDEAN ;",
+    'BUSBITCHARS "[]" ; BUSBITCHARS "<>" ; DIVIDERCHAR "/" ; DIVIDERCHAR "|" ;', 'BUSBITCHARS "#;" ; DIVIDERCHAR "#" ;', 'BUSBITCHARS "😀́" ; DIVIDERCHAR "\\" ;',
+    'BEGINEXT "a\nb" ENDEXT', 'BEGINEXT "t" "a\nb" x # comment ENDEXT\n y ENDEXT', 'BEGINEXT "t" BEGINEXT "u" ENDEXT', 'BEGINEXT "t" END LIBRARY ENDEXT MACRO m END m',
+    'BEGINEXT "t" x ENDEXT\nBEGINEXT "t" x ENDEXT', "MACRO LIBRARY END LIBRARY END LIBRARY", "MACRO m PIN END END END END m", "MACRO m PROPERTY PROPERTY PROPERTY ; END m",
+    "MACRO inf SIZE 1 BY 1 ; END inf MACRO nan END nan", "MACRO m FOREIGN inf 1 2 ; END m", "MACRO m FOREIGN - 1 2 FN ; EEQ -. ; SITE 1e+ ; END m",
+    "PROPERTYDEFINITIONS MACRO RANGE REAL RANGE 1 2 ; MACRO STRING STRING \"STRING\" ; LIBRARY a INTEGER 5 ; END PROPERTYDEFINITIONS",
+    "MACRO m OBS LAYER l ; " + "RECT 0 0 1 1 ; " * 40 + "END END m", "MACRO m PIN a " + "PORT LAYER l ; END " * 12 + "END a END m", "".join("MACRO m%d END m%d " % (i, i) for i in range(30)),
+    "MACRO m OBS LAYER l ; POLYGON " + " ".join("%d.%d -%d" % (i, i % 10, i) for i in range(1, 150)) + " ; END END m",
 ]
 
 SWEEP_VERSIONS = [None, "5", "5.0", "5.1", "5.2", "5.3", "5.4", "5.40", "5.5", "5.50", "5.6", "5.60", "5.7", "5.8", "5.80"]
@@ -146,6 +171,15 @@ def gen_cases(chk):
         ver = rng.choice([None, 53, 54, 55, 56, 57, 58])
         lib = gen_lib(rng, ver, "plain" if i % 3 == 0 else "mixed")
         pairs.append((gen_style(rng, lib, plain=(i % 5 == 0)), lib)); kinds.append("random")
+    # the directed families of C04 (decimal classes in every spelling, every VERSION / DATABASE MICRONS value, LAYER statement options,
+    # identifiers that are keywords / nearly numbers / all equal, long lists, special characters, BEGINEXT texts); of the styled copies
+    # of one library only a few (the property is about the library value, not its lexical form)
+    for kind, label, sty, lib in C4.directed_cases(quick):
+        if kind == "dir_full_styled" and not label.endswith(("plain", "all spellings", "order=reversed", "sep=CRLF")):
+            continue
+        if kind in ("dir_version", "dir_dbu") and "sp(0, False, 0, False)" not in label and "sp(0, False, 3, False)" not in label and quick:
+            continue
+        pairs.append((Raw(sty), lib)); kinds.append("c04_" + kind)
     base = []
     for k, b in zip(kinds, C4.render_pairs(chk, pairs, "c05_render")):
         if add(k, b):
@@ -199,6 +233,16 @@ def evaluate(chk, cases, tag):
             out[i] = (2, 0)
             continue
         w = r.get("w") or {}
+        sv = r.get("save")
+        if sv is not None and not sv.get("same"):
+            # `save` (the file the lefrw binary leaves) is not the text of `to_string`: judged by reading the saved file back
+            r3 = sv.get("r3") or {}
+            same_lib = "ok" in r3 and C4.lib_diff(R("lef_lib"), {k: v for k, v in r["r"]["ok"].items() if k != "unsupported_set"},
+                                                  {k: v for k, v in r3["ok"].items() if k != "unsupported_set"}) is None
+            c["save_problem"] = ("save refuses / panics: %s" % json.dumps(sv)[:200]) if "text" not in sv else \
+                                ("the saved file differs from to_string and reads back %s" % ("equal" if same_lib else "differently: " + json.dumps(r3)[:200]))
+            out[i] = (1 if same_lib else 2, 0)
+            continue
         wt = "(Some %s)" % clong(w["text"]) if "text" in w else "None"
         wpanic = cbool("wpanic" in w or not w)
         i1 = res_to_coq(r["r"])
@@ -206,7 +250,18 @@ def evaluate(chk, cases, tag):
         lib = lib_to_coq(r["r"]["ok"])
         items.append("(c05_check %s %s %s %s %s, if res_matches (parse %s %s) %s then 0 else 1)" % (cfg, lib, wt, wpanic, i2, cfg, clong(c["src"]), i1))
         idx.append(i)
-    outs = coq_eval_lists(LEF_HDR, items, chk.rundir, tag, shard=max(20, len(items) // (3 * NCPU) + 1))
+    # shards of equal work: the items are dealt to the shards by decreasing size (long texts would otherwise sit in one shard)
+    shard = max(20, len(items) // (3 * NCPU) + 1)
+    nsh = max(1, -(-len(items) // shard))
+    by_size = sorted(range(len(items)), key=lambda j: -len(items[j]))
+    buckets = [by_size[k::nsh] for k in range(nsh)]
+    shard = max(1, max(len(b) for b in buckets))
+    perm = [j for b in buckets for j in b + [None] * (shard - len(b))]
+    outs_p = coq_eval_lists(LEF_HDR, [items[j] if j is not None else "(0, 0)" for j in perm], chk.rundir, tag, shard=shard)
+    outs = [None] * len(items)
+    for j, o in zip(perm, outs_p):
+        if j is not None:
+            outs[j] = o
     for i, o in zip(idx, outs):
         m = re.match(r"\(\(?(-?\d+)\)?(?:%Z)?, \(?(-?\d+)\)?(?:%Z)?\)", o.strip())
         if not m:
@@ -216,6 +271,9 @@ def evaluate(chk, cases, tag):
 
 def failure_class(r):
     w = r.get("w") or {}
+    sv = r.get("save")
+    if sv is not None and not sv.get("same"):
+        return "save: " + ("the file written differs from to_string" if "text" in sv else "refuses or panics although to_string succeeds")
     if "wpanic" in w:
         return "the writer panics"
     if "werr" in w:
@@ -244,7 +302,7 @@ def run(chk, replay=None):
     chk.cov["rule"] = ("LEF texts; a text is a case when lef21 reads it (the property is about libraries in the image of the reader). Renderings of the C04 feature "
                        "libraries (one per field / variant / enum value of the data model) and of random libraries (versions none/5.3..5.8, random styles), the hand-written "
                        "corpus, directed texts (version gates, a second VERSION statement, exponent and 28-digit numbers, odd names), an exhaustive sweep of version x "
-                       "version-dependent statement x position x END LIBRARY, and single-token faults of all of "
+                       "version-dependent statement x position x END LIBRARY, renderings of C04's directed families (c04_dir_*), and single-token faults of all of "
                        "these that are still accepted. Non-trivial: the text is accepted and the library read is not the empty library; distinct by text.")
     res, codes = evaluate(chk, cases, "c05")
     acc = [(c, r, k) for c, r, k in zip(cases, res, codes) if k is not None]
@@ -279,8 +337,9 @@ def run(chk, replay=None):
             chk.violation("LEF text %r is read, but %s (written: %r; second read: %s; %d failing cases of %d in this class)" % (
                 bytes.fromhex(c["src"]).decode("utf8", "replace")[:200], cls, bytes.fromhex(w.get("text", "")).decode("utf8", "replace")[:200] or w,
                 json.dumps(r.get("r2"))[:200], len(lst), len(acc)),
-                {"cases": [x[0] for x in lst[:10]], "class": cls, "impl": [{"w": x[1].get("w"), "r2": x[1].get("r2") if "ok" not in (x[1].get("r2") or {}) else "ok(differs)"} for x in lst[:10]]})
+                {"cases": [x[0] for x in lst[:10]], "class": cls, "kinds": {k: sum(1 for x in lst if x[0]["kind"] == k) for k in sorted({x[0]["kind"] for x in lst})}, "impl": [{"w": x[1].get("w"), "r2": x[1].get("r2") if "ok" not in (x[1].get("r2") or {}) else "ok(differs)"} for x in lst[:10]]})
     elif mism:
         c, r, k = min(mism, key=lambda x: len(x[0]["src"]))
-        chk.broken.append("correspondence C05: impl differs from model (%d cases; codes %s), e.g. %r written=%r" % (
-            len(mism), k, bytes.fromhex(c["src"]).decode("utf8", "replace")[:120], bytes.fromhex((r.get("w") or {}).get("text", "")).decode("utf8", "replace")[:200]))
+        chk.broken.append("correspondence C05: impl differs from model (%d cases; codes %s), e.g. %r written=%r%s" % (
+            len(mism), k, bytes.fromhex(c["src"]).decode("utf8", "replace")[:120], bytes.fromhex((r.get("w") or {}).get("text", "")).decode("utf8", "replace")[:200],
+            (" ; " + c["save_problem"]) if c.get("save_problem") else ""))
